@@ -186,9 +186,19 @@ impl ShapeInfo {
     }
 
     pub fn lca(&self, x: usize, y: usize) -> usize {
-        let ax = self.ancestors_inclusive(x);
-        let ay = self.ancestors_inclusive(y);
-        *ax.iter().find(|a| ay.contains(a)).unwrap()
+        // lift the deeper node, then both, until they meet (depths and parents come from the shape)
+        let (mut a, mut b) = (x, y);
+        while self.depth[a] > self.depth[b] {
+            a = self.parent[a].unwrap();
+        }
+        while self.depth[b] > self.depth[a] {
+            b = self.parent[b].unwrap();
+        }
+        while a != b {
+            a = self.parent[a].unwrap();
+            b = self.parent[b].unwrap();
+        }
+        a
     }
 
     /// is y inside the subtree rooted at x's left (resp. right) child?
